@@ -34,7 +34,8 @@ def guess_output_format(fileorname, fileformat_request):
             else:
                 name = fileorname.name
             ext = os.path.splitext(name)[-1][1:]
-        except (AttributeError, ValueError, IndexError):
+        except (AttributeError, ValueError, IndexError, TypeError):
+            # (the `name` of an open file may be a file descriptor)
             pass
 
         if ext == 'tex':
